@@ -83,6 +83,23 @@ def pairs(tier):
     import families3
     for pid, s1, s2, assume in families3.ctx_rewrites(tier):
         add('rw/' + pid, s1, s2, assume=assume)
+    # if (c) A else B  vs  if (!c) B else A  where the else side starts with a zero test of a value set by the PRECEDING statement
+    for (sn, s, z), (cn, cnd) in itertools.product(families3.flag_setters(), [('Y==3', lambda: B('==', V('Y'), C(3))), ('vb<vc', lambda: B('<', V('vb'), V('vc'))), ('vd', lambda: V('vd')), ('bY==1', lambda: B('==', Index('brr', V('Y')), C(1)))]):
+        if z in cn or sn == 'va=f': continue
+        pid = 'rw/flagctx/%s/%s' % (sn, cn)
+        if tier == 'quick' and not stable_pick(pid, 100, 60): continue
+        one, two, three = (lambda: A(V('sc'), C(1))), (lambda: A(V('sc'), C(2))), (lambda: A(V('sc'), C(3)))
+        for zn, zt in (('nz', lambda: V(z)), ('z', lambda: B('==', V(z), C(0)))):
+            add(pid + '/else/' + zn, [s(), If(cnd(), one(), If(zt(), two(), three()))], [s(), If(Un('!', cnd()), If(zt(), two(), three()), one())])
+            add(pid + '/then/' + zn, [s(), If(cnd(), If(zt(), one(), two()), three())], [s(), If(Un('!', cnd()), three(), If(zt(), one(), two()))])
+    # an expression in the initialiser of a local variable vs the same expression assigned (two operator tables)
+    bops = ['+', '-', '&', '|', '^', '<<', '>>', '<', '<=', '>', '>=', '==', '!=', '&&', '||']
+    for o1, o2 in itertools.product(bops, bops):
+        r3 = lambda: C(2) if o2 in ('<<', '>>') else V('vd'); r2 = lambda: C(1) if o1 in ('<<', '>>') else V('vc')
+        e = lambda: Flat([V('vb'), o1, r2(), o2, r3()])
+        fi = Func('fi', None, [], Block([A(V('va'), V('l'))], decls=[('u8', 'l', e())]))
+        fa = Func('fi', None, [], Block([A(V('va'), e())]))
+        add('rw/init-vs-assign/vb%svc%svd' % (o1, o2), [ExprS(Call('fi', []))], [ExprS(Call('fi', []))], funcs1=[fi], funcs2=[fa], extra=['va', 'vb', 'vc', 'vd'])
     # call vs body written in place
     F = Func
     ret = lambda e: Return(e)
